@@ -81,6 +81,9 @@ type handlerSpec struct {
 	// response runs to completion on the same Transcoder, on the handler's goroutine
 	NestBig bool `json:"nestbig"`
 	Ignore  bool `json:"ignore"` // ignore request-side failures (hostile handler)
+	// the handler answers BEFORE it reads the request (a handler may: the reply of a unary method can be ready
+	// early, e.g. from a cache), then reads the request body - whatever it meets there - and returns
+	WriteFirst bool `json:"writefirst"`
 }
 
 type scenario struct {
